@@ -277,11 +277,17 @@ class MembershipProtocol(Entity):
         if target_name is None or target_name not in self._members:
             return []
 
-        self._members[target_name]
+        info = self._members[target_name]
 
         # If we already got an ack, skip
         if target_name not in self._pending_acks:
             return []
+
+        # No ack within the timeout: the member is suspected from now on (the
+        # suspicion timeout scheduled below declares it DEAD unless an ack or
+        # ping from it arrives first). Without this a member that was never
+        # heard from (phi undefined) would be reported ALIVE forever.
+        self._suspect_member(info, self.now.to_seconds())
 
         # Pick random delegates (excluding self and target)
         delegates = [
